@@ -426,6 +426,12 @@ class Machine:
                     if "promoted[" in name and c[1].endswith(name):
                         return self.run(f, [])
                 raise Unsupported("promoted constant " + c[1])
+            mm = re.match(r"^(?:core::num::<impl )?(u8|u16|u32|u64|usize|i8|i16|i32|i64|isize)>?::(MAX|MIN)$", c[1])
+            if mm:
+                bits, signed = INT_BITS[mm.group(1)], mm.group(1).startswith("i")
+                if mm.group(2) == "MAX":
+                    return (1 << (bits - 1)) - 1 if signed else (1 << bits) - 1
+                return -(1 << (bits - 1)) if signed else 0
             last = c[1].rsplit("::", 1)[-1]
             if re.match(r"^[A-Z]\w*$", last) and "(" not in c[1]:
                 ety, name = base_type(c[1])
@@ -621,7 +627,11 @@ def split_path(c):
         ch = c[i]
         if ch == "<":
             depth += 1
-        elif ch == ">":
+        elif ch == ">" and not (i > 0 and c[i - 1] == "-"):
+            depth -= 1
+        elif ch in "({":
+            depth += 1
+        elif ch in ")}":
             depth -= 1
         if depth == 0 and c.startswith("::", i):
             segs.append("".join(cur)); cur = []; i += 2
